@@ -512,5 +512,6 @@ int main (int argc, char** argv)
     c15::run_farsphere ();
     c15::run_affine ();
     c15::run_cvertex ();
+    c15::run_dirty ();
     return vf::R ().finish ();
 }
